@@ -223,6 +223,26 @@ theorem catch_up_skips_known (cfg : Cfg) (lc : LCfg) (m : Mode) (known rest : Li
     rw [addRaws, hr]
     exact ih l (fun x hx => h x (List.mem_cons_of_mem _ hx))
 
+/-! ## rebuilding from storage does not depend on the order index -/
+
+/-- an order-index scan that fails (unreadable leftover document, broken index) sends `loadRecords`
+to the authoritative head→root PrevId walk — it does not fail the build -/
+theorem load_records_scan_error_falls_back (walk : Option (List Item)) (rootId head : Nat) :
+    loadRecords none walk rootId head = walk := rfl
+
+/-- whatever the order-index scan returns — an error, leftover or foreign documents, gaps,
+duplicates, a wrong order, nothing — `loadRecords` yields exactly the PrevId chain from the head,
+provided the head entry and the chain are intact (the walk succeeds), every scanned item passed
+verification and is the document `Get` returns for its id, and the root has no PrevId -/
+theorem load_records_scan_irrelevant (get : Nat → Option Item) (scan : Option (List Item))
+    (rootId head fuel : Nat) (chain : List Item)
+    (hwalk : walkUp get fuel head = some chain)
+    (hver : ∀ l, scan = some l → ∀ it ∈ l, get it.id = some it)
+    (hroot : ∀ it, get rootId = some it → it.prev = none)
+    (hfuel : ∀ l, scan = some l → l.length ≤ fuel) :
+    loadRecords scan (walkUp get fuel head) rootId head = some chain :=
+  loadRecords_eq_walk get scan rootId head fuel chain hwalk hver hroot hfuel
+
 /-! ## no dependence on Go map iteration order -/
 
 /-- requestRecords and pendingRequests stay in bijection across every accepted record (the record
@@ -308,6 +328,22 @@ theorem keep_fast_eq_full : C03_keep_fast_eq_full :=
   fun other isOurs d out hd hlen h => Keep.fast_eq_full other isOurs d out hd hlen h
 
 /-! ## non-vacuity -/
+
+/-- root 0, records 1 and 2; a scan with a leftover item, a scan in the wrong order and a failing
+scan all load the same chain as the clean scan -/
+def demoGet : Nat → Option Item
+  | 0 => some ⟨0, none, none⟩
+  | 1 => some ⟨1, some 0, some ⟨0, 0, [.opt 1]⟩⟩
+  | 2 => some ⟨2, some 1, some ⟨0, 1, [.nop]⟩⟩
+  | _ => none
+
+example :
+    let chain := [⟨0, none, none⟩, ⟨1, some 0, some ⟨0, 0, [.opt 1]⟩⟩, ⟨2, some 1, some ⟨0, 1, [.nop]⟩⟩]
+    walkUp demoGet 5 2 = some chain ∧
+    loadRecords (some chain) (walkUp demoGet 5 2) 0 2 = some chain ∧
+    loadRecords (some (chain ++ [⟨9, none, none⟩])) (walkUp demoGet 5 2) 0 2 = some chain ∧
+    loadRecords (some chain.reverse) (walkUp demoGet 5 2) 0 2 = some chain ∧
+    loadRecords none (walkUp demoGet 5 2) 0 2 = some chain := by decide
 
 /-- a canonical read key change with two account keys, the second one ours -/
 example : Keep.fast (fun b => b == [0x0b])
